@@ -243,6 +243,74 @@ theorem filterInsert_nodup : ∀ (l seen : List TxIn), l.Nodup → (∀ z ∈ l,
     simp only [List.mem_cons, not_or]
     exact ⟨fun e => hn.1 (e ▸ hz), hs z (List.mem_cons_of_mem _ hz)⟩
 
+theorem idxOf_cons_ne' (x a : TxIn) (xs : List TxIn) (h : a ≠ x) : (x :: xs).idxOf a = xs.idxOf a + 1 := by
+  have : (x == a) = false := by simpa using fun e => h e.symm
+  rw [List.idxOf_cons, this]; rfl
+
+/-- the kept elements appear in the order of their FIRST occurrences in the source list -/
+theorem filterInsert_first_order : ∀ (l seen : List TxIn),
+    (filterInsert seen l).Pairwise (fun a b => l.idxOf a < l.idxOf b)
+  | [], seen => by simp [filterInsert]
+  | x :: xs, seen => by
+    by_cases hx : x ∈ seen
+    · simp only [filterInsert, hx, if_true]
+      have ih := filterInsert_first_order xs seen
+      have hm := (filterInsert_spec xs seen).2.1
+      refine ih.imp_of_mem ?_
+      intro a b ha hb hab
+      have ha' : a ≠ x := fun e => ((hm a).mp ha).2 (e ▸ hx)
+      have hb' : b ≠ x := fun e => ((hm b).mp hb).2 (e ▸ hx)
+      rw [idxOf_cons_ne' _ _ _ ha', idxOf_cons_ne' _ _ _ hb']
+      omega
+    · simp only [filterInsert, hx, if_false]
+      have ih := filterInsert_first_order xs (x :: seen)
+      have hm := (filterInsert_spec xs (x :: seen)).2.1
+      refine List.Pairwise.cons ?_ (ih.imp_of_mem ?_)
+      · intro b hb
+        have hb' : b ≠ x := fun e => ((hm b).mp hb).2 (by simp [e])
+        rw [List.idxOf_cons_self, idxOf_cons_ne' _ _ _ hb']
+        omega
+      · intro a b ha hb hab
+        have ha' : a ≠ x := fun e => ((hm a).mp ha).2 (by simp [e])
+        have hb' : b ≠ x := fun e => ((hm b).mp hb).2 (by simp [e])
+        rw [idxOf_cons_ne' _ _ _ ha', idxOf_cons_ne' _ _ _ hb']
+        omega
+
+
+/-- a list that is pairwise related by an irreflexive, asymmetric relation is determined by its
+    set of elements -/
+theorem unique_of_pairwise {α : Type} (R : α → α → Prop) (irr : ∀ a, ¬ R a a) (asym : ∀ a b, R a b → ¬ R b a) :
+    ∀ (l₁ l₂ : List α), l₁.Pairwise R → l₂.Pairwise R → (∀ z, z ∈ l₁ ↔ z ∈ l₂) → l₁ = l₂
+  | [], [], _, _, _ => rfl
+  | [], y :: ys, _, _, hm => by have := (hm y).mpr (by simp); simp at this
+  | x :: xs, [], _, _, hm => by have := (hm x).mp (by simp); simp at this
+  | x :: xs, y :: ys, h1, h2, hm => by
+    rw [List.pairwise_cons] at h1 h2
+    have hxy : x = y := by
+      have hx : x ∈ y :: ys := (hm x).mp (by simp)
+      have hy : y ∈ x :: xs := (hm y).mpr (by simp)
+      rcases List.mem_cons.mp hx with e | hx
+      · exact e
+      · rcases List.mem_cons.mp hy with e | hy
+        · exact e.symm
+        · exact absurd (h1.1 y hy) (asym _ _ (h2.1 x hx))
+    subst hxy
+    congr 1
+    apply unique_of_pairwise R irr asym xs ys h1.2 h2.2
+    intro z
+    constructor
+    · intro hz
+      have : z ∈ x :: ys := (hm z).mp (List.mem_cons_of_mem _ hz)
+      rcases List.mem_cons.mp this with e | h
+      · subst e; exact absurd (h1.1 z hz) (irr z)
+      · exact h
+    · intro hz
+      have : z ∈ x :: xs := (hm z).mpr (List.mem_cons_of_mem _ hz)
+      rcases List.mem_cons.mp this with e | h
+      · subst e; exact absurd (h2.1 z hz) (irr z)
+      · exact h
+
+
 /-! ## enumerate -/
 
 theorem enumerateFrom_length {α} (l : List α) (n : Nat) : (enumerateFrom n l).length = l.length := by
